@@ -36,7 +36,7 @@ type replicator struct {
 	maxLagTime   time.Duration
 	lastCaughtUp time.Time
 	lastSeen     time.Time
-	lastOffset   int64 // Newest offset the replica reported in its latest request
+	lastExpand   time.Time // Last time the replica was proposed for the ISR
 	requests     chan replicationRequest
 	mu           sync.RWMutex
 	leader       string
@@ -54,7 +54,6 @@ func newReplicator(epoch uint64, replica string, p *partition) *replicator {
 		requests:   make(chan replicationRequest, 1),
 		maxLagTime: p.srv.config.Clustering.ReplicaMaxLagTime,
 		leader:     p.srv.config.Clustering.ServerID,
-		lastOffset: -1,
 	}
 }
 
@@ -86,7 +85,6 @@ func (r *replicator) start(stop <-chan struct{}) {
 
 		r.mu.Lock()
 		r.lastSeen = req.received
-		r.lastOffset = req.Offset
 		r.mu.Unlock()
 
 		// Update the ISR replica's latest offset for the partition. This is
@@ -100,6 +98,12 @@ func (r *replicator) start(stop <-chan struct{}) {
 
 		// Check if we're caught up.
 		if req.Offset >= latest {
+			// A replica that holds the whole log holds everything that has
+			// been committed, so this is the moment it may rejoin the ISR.
+			// Having been caught up recently is not enough: the leader may
+			// have committed more messages on its own since then, and a
+			// member of the ISR can be elected leader.
+			r.maybeExpandISR(req.received)
 			r.caughtUp(stop, latest, req)
 			continue
 		}
@@ -164,7 +168,6 @@ func (r *replicator) tick(stop <-chan struct{}) {
 			now                 = time.Now()
 			lastSeenElapsed     = now.Sub(r.lastSeen)
 			lastCaughtUpElapsed = now.Sub(r.lastCaughtUp)
-			lastOffset          = r.lastOffset
 		)
 		r.mu.RUnlock()
 		outOfSync := lastSeenElapsed > r.maxLagTime || lastCaughtUpElapsed > r.maxLagTime
@@ -176,20 +179,29 @@ func (r *replicator) tick(stop <-chan struct{}) {
 				r.replica, r.partition, lastSeenElapsed, lastCaughtUpElapsed)
 
 			r.shrinkISR()
-		} else if !outOfSync && !r.partition.inISR(r.replica) &&
-			lastOffset >= r.partition.log.HighWatermark() {
-			// Only a replica that holds everything committed so far may rejoin
-			// the ISR. Being caught up recently is not enough: the leader may
-			// have committed more messages on its own since then, and a member
-			// of the ISR can be elected leader.
-			// Add replica back into ISR.
-			r.partition.srv.logger.Infof("Replica %s for partition %s caught back up with leader, "+
-				"rejoining ISR", r.replica, r.partition)
-			r.expandISR()
 		}
 
 		timer.Reset(computeTick(lastCaughtUpElapsed, r.maxLagTime))
 	}
+}
+
+// maybeExpandISR proposes the replica, which has just been found caught up
+// with the log end, for the ISR if it is not a member. Proposals are spaced so
+// that a refused one is not repeated with every request.
+func (r *replicator) maybeExpandISR(now time.Time) {
+	if r.partition.inISR(r.replica) {
+		return
+	}
+	r.mu.Lock()
+	if now.Sub(r.lastExpand) < time.Second {
+		r.mu.Unlock()
+		return
+	}
+	r.lastExpand = now
+	r.mu.Unlock()
+	r.partition.srv.logger.Infof("Replica %s for partition %s caught back up with leader, "+
+		"rejoining ISR", r.replica, r.partition)
+	r.expandISR()
 }
 
 // shrinkISR sends a ShrinkISR request to the controller to remove the replica
